@@ -437,6 +437,10 @@ class ConditionEvaluator(ast.NodeVisitor):
             pair = decompose_union(typ, val, self.ctx.can_assign_context, exclude_any)
             if pair is not None:
                 _, remaining = pair
+                # Only the union members that matched go on to the positive
+                # branch; narrowing the whole union would also let in members
+                # that merely overlap with the type.
+                matched = subtract_unions(val, remaining)
                 return ConditionReturn(
                     condition=IsOfTypeCondition(
                         varname_node.id,
@@ -446,7 +450,9 @@ class ConditionEvaluator(ast.NodeVisitor):
                         typ,
                         exclude_any=exclude_any,
                     ),
-                    left_varmap={varname_node.id: constrain_value(val, constraint)},
+                    left_varmap={
+                        varname_node.id: constrain_value(matched, constraint)
+                    },
                     right_varmap={varname_node.id: remaining},
                 )
             return ConditionReturn(right_varmap={}, condition=NotCondition(condition))
